@@ -574,7 +574,36 @@ def gen_kf_zero_guard(rng, mode):
     return g.finish()
 
 
+def gen_c18(rng, mode):
+    """Black-box order of a non-unique index: objects with secondary/primary keys over {00,01,02,ff}."""
+    import itertools
+    g = DBGen(rng, mode)
+    g.add(op="config", nilempty=False)
+    t = g.newtable()
+    alpha = [0, 1, 2, 255]
+    strs = [[]] + [[a] for a in alpha] + [list(x) for x in itertools.product(alpha, repeat=2)]
+    pks = rng.sample(strs, rng.randint(4, 8))
+    tx = g.begin([t])
+    tagsets = []
+    for pk in pks:
+        tags = rng.sample(strs, rng.randint(1, 3))
+        tagsets += tags
+        g.add(op="insert", tx=tx, t=t, obj=dict(pk=pk, val=rng.randint(1, 9), hasU=False, u=[], tags=tags, pfx=[],
+                                                 hasUp=False, upfx=[]), guard=0, gsym="", w=0)
+    s = g.commit(tx)
+    src = g.snap_src(s)
+    for tg in rng.sample(strs, 6) + tagsets[:6]:
+        g.q(src, t, "tags", "list", tg)
+        g.q(src, t, "tags", "get", tg)
+        g.q(src, t, "tags", "prefix", tg)
+        g.q(src, t, "tags", "lowerbound", tg)
+    g.q(src, t, "tags", "prefix", [])
+    g.q(src, t, "tags", "lowerbound", [])
+    return g.finish()
+
+
 MODES = {
+    "c18": gen_c18,
     "kf_l": gen_kf_rejected_only, "kf_n": gen_kf_zero_guard,
     "c01": gen_general, "c02": gen_general, "c03": gen_general, "c04": gen_general, "c06": gen_general,
     "c09": gen_general, "c07": gen_iter, "c08": gen_iter, "c19": gen_init,
